@@ -762,12 +762,11 @@ theorem Dev.fresh_inv (isAsync full raw : Bool) (n : Nat) (k : Trace) (hk : k.se
   · intro _; simp [Dev.fresh, Dev.open, Dev.doSetp, rawNext, RawParser.consume]
 
 /-- `close()` of a device that has not announced eof: the buffer is flushed with the eof mark, exactly once -/
-theorem Dev.close_spec (d : Dev) (k : Trace) (inp : Bytes) (g : DevGood d k inp)
-    (hraw : d.rawMode = true → (rawNext {} inp).done = true) :
+theorem Dev.close_spec (d : Dev) (k : Trace) (inp : Bytes) (g : DevGood d k inp) :
     (d.close traceIf k).2.bytes = filterOf d.rawMode inp ∧ (d.close traceIf k).1.content = [] ∧ (d.close traceIf k).2.eofs = 1 ∧
     (d.close traceIf k).2.sends = k.sends ++ [((filterOf d.rawMode inp).drop k.bytes.length, true)] ∧
     (d.close traceIf k).1.Inv (d.close traceIf k).2 inp ∧ Sealed (d.close traceIf k).1 ∧
-    RawOk (d.close traceIf k).1 (d.close traceIf k).2 ∧ (d.close traceIf k).1.rawMode = d.rawMode ∧
+    ((d.rawMode = true → (rawNext {} inp).done = true) → RawOk (d.close traceIf k).1 (d.close traceIf k).2) ∧ (d.close traceIf k).1.rawMode = d.rawMode ∧
     (d.rawMode = false → (d.close traceIf k).2.hdrs = k.hdrs) ∧ (∃ e : Trace, (d.close traceIf k).2 = k ++ e) := by
   obtain ⟨h, ⟨q1, q2, q3⟩, r⟩ := g
   unfold Dev.close
@@ -779,8 +778,9 @@ theorem Dev.close_spec (d : Dev) (k : Trace) (inp : Bytes) (g : DevGood d k inp)
   have hr0 : RawOk { d with final := true } k := by
     unfold RawOk; intro hm; exact r hm
   -- the parser is complete after this write (raw modes)
-  have hdone : ({ d with final := true }.flush traceIf k).1.rawMode = true → ({ d with final := true }.flush traceIf k).1.raw.done = true := by
-    intro hm
+  have hdone : (d.rawMode = true → (rawNext {} inp).done = true) →
+      ({ d with final := true }.flush traceIf k).1.rawMode = true → ({ d with final := true }.flush traceIf k).1.raw.done = true := by
+    intro hraw hm
     obtain ⟨fed, _, _, g3, _, g5⟩ := f1
     rw [f2] at g3
     simp only [List.take_zero, List.append_nil] at g3
@@ -794,8 +794,9 @@ theorem Dev.close_spec (d : Dev) (k : Trace) (inp : Bytes) (g : DevGood d k inp)
   · simp only [Trace.eofs] at q3 ⊢
     rw [hk, List.filter_append]
     simp [q3]
-  · by_cases hm : d.rawMode = true
-    · exact hr0.step f4 (Or.inr (hdone (by rw [f4.mode]; exact hm)))
+  · intro hraw
+    by_cases hm : d.rawMode = true
+    · exact hr0.step f4 (Or.inr (hdone hraw (by rw [f4.mode]; exact hm)))
     · intro hm'; rw [f4.mode] at hm'; exact absurd hm' hm
 
 end Cppcms.C03
